@@ -23,6 +23,14 @@
 //! length < d1 that reach the same canonical state must have produced the same successor
 //! canonical state and the same verdict class for every letter.
 //!
+//! Tiers (d1 = no-dedup depth, d2 = dedup depth): quick Rtp (4,6), Srtp/WebRtc (3,6),
+//! connected starts (2,4), about 20 s; thorough (5,8) everywhere, connected (3,6), about
+//! 15-25 min.  Override with C09_D1/C09_D2 (C09_CD1/C09_CD2 for the connected starts) and
+//! C09_ONLY=<mode>/<start substring>.  A measured PeerConnection pair costs 0.15-2 ms.
+//!
+//! The start sequences themselves (a plain offer/answer exchange) are judged too: if the real
+//! code refuses one of their calls this is reported as a `jsep;start-sequence(..)` violation.
+//!
 //! Oracle (1): reference JSEP machine (`expect`).  Oracle (2): every call that returns Err (or
 //! panics) must leave signaling_state(), local_description(), remote_description() and, for
 //! every transceiver, kind/mid()/direction()/get_payload_map()/get_extmap() unchanged.
@@ -736,7 +744,7 @@ impl World {
         Ok(())
     }
 
-    async fn build(mode: Mode, start: Start) -> Result<World, String> {
+    async fn build(mode: Mode, start: Start) -> Result<World, RunErr> {
         let pc = PeerConnection::new(config(mode));
         pc.add_transceiver(MediaKind::Audio, TransceiverDirection::SendRecv);
         let shadow = PeerConnection::new(config(mode));
@@ -750,7 +758,22 @@ impl World {
             rf: Ref { st: SignalingState::Stable, o_fresh: false, a_fresh: false, local_is_o: false },
             shadow_errors: vec![],
         };
-        let e = |what: &str, r: Res| format!("start {}: {what}: {}", start.name(), r.class());
+        let e = |what: &str, r: Res| {
+            let msg = format!("start {}: {what}: {}", start.name(), r.class());
+            RunErr {
+                happy_path: Some(Found {
+                    step: 0,
+                    signature: format!("jsep;start-sequence({});{what};expected=ok;got={}", start.name(), r.class()),
+                    detail: format!(
+                        "mode={} start={}: the plain offer/answer exchange that sets up the start state was refused at `{what}`: {:?}",
+                        mode.name(),
+                        start.name(),
+                        r
+                    ),
+                }),
+                msg,
+            }
+        };
         let gather = |p: PeerConnection| async move {
             let _ = tokio::time::timeout(Duration::from_secs(3), p.wait_for_gathering_complete()).await;
         };
@@ -801,15 +824,18 @@ impl World {
             for (n, p) in [("pc", w.pc.clone()), ("shadow", w.shadow.clone())] {
                 match tokio::time::timeout(Duration::from_secs(8), p.wait_for_connected()).await {
                     Ok(Ok(())) => {}
-                    Ok(Err(x)) => return Err(format!("start {}: {n} failed to connect: {x}", start.name())),
-                    Err(_) => return Err(format!("start {}: {n} connect timeout", start.name())),
+                    Ok(Err(x)) => return Err(format!("start {}: {n} failed to connect: {x}", start.name()).into()),
+                    Err(_) => return Err(format!("start {}: {n} connect timeout", start.name()).into()),
                 }
             }
         }
         if w.pc.signaling_state() != SignalingState::Stable || w.shadow.signaling_state() != SignalingState::Stable {
-            return Err(format!("start {}: not stable after setup", start.name()));
+            return Err(format!("start {}: not stable after setup", start.name()).into());
         }
-        w.peer_offers().await?;
+        w.peer_offers().await.map_err(|m| {
+            let r = Res::Err { variant: "start", msg: m.clone() };
+            e("shadow create_offer (re-offer in Stable)", r)
+        })?;
         Ok(w)
     }
 
@@ -916,6 +942,20 @@ impl World {
 
 // ───────────────────────────── running one history ─────────────────────────────
 
+/// Why a history could not be run.  `happy_path` is set when a call of the start sequence (a
+/// plain offer/answer exchange that the JSEP machine allows) was refused by the real code:
+/// that is a verdict about the implementation, not harness trouble.
+#[derive(Clone, Debug)]
+struct RunErr {
+    happy_path: Option<Found>,
+    msg: String,
+}
+impl From<String> for RunErr {
+    fn from(msg: String) -> Self {
+        RunErr { happy_path: None, msg }
+    }
+}
+
 #[derive(Clone, Debug)]
 struct StepRec {
     letter: u8,
@@ -945,7 +985,7 @@ struct HistOut {
     trace_digest: Vec<u64>,
 }
 
-async fn replay(mode: Mode, start: Start, hist: &[u8]) -> Result<HistOut, String> {
+async fn replay(mode: Mode, start: Start, hist: &[u8]) -> Result<HistOut, RunErr> {
     let mut w = World::build(mode, start).await?;
     let mut out = HistOut { steps: vec![], found: vec![], na_at: None, canon: String::new(), applicable: vec![], shadow_errors: vec![], trace_digest: vec![] };
     for (i, &l) in hist.iter().enumerate() {
@@ -1025,7 +1065,7 @@ thread_local! {
 
 /// Runs one history on this thread's current-thread runtime (rotated every 128 histories so
 /// that tasks of finished PeerConnections cannot pile up).
-fn run_history(mode: Mode, start: Start, hist: &[u8]) -> Result<HistOut, String> {
+fn run_history(mode: Mode, start: Start, hist: &[u8]) -> Result<HistOut, RunErr> {
     RT.with(|cell| {
         let mut g = cell.borrow_mut();
         let rotate = match g.as_ref() {
@@ -1039,7 +1079,7 @@ fn run_history(mode: Mode, start: Start, hist: &[u8]) -> Result<HistOut, String>
             let rt = tokio::runtime::Builder::new_current_thread()
                 .enable_all()
                 .build()
-                .map_err(|e| format!("runtime: {e}"))?;
+                .map_err(|e| RunErr::from(format!("runtime: {e}")))?;
             *g = Some((rt, 0));
         }
         let (rt, n) = g.as_mut().unwrap();
@@ -1048,7 +1088,7 @@ fn run_history(mode: Mode, start: Start, hist: &[u8]) -> Result<HistOut, String>
             rt.block_on(async {
                 match tokio::time::timeout(Duration::from_secs(60), replay(mode, start, hist)).await {
                     Ok(r) => r,
-                    Err(_) => Err("history timed out (60 s)".to_string()),
+                    Err(_) => Err("history timed out (60 s)".to_string().into()),
                 }
             })
         }));
@@ -1056,7 +1096,7 @@ fn run_history(mode: Mode, start: Start, hist: &[u8]) -> Result<HistOut, String>
             Ok(r) => r,
             Err(_) => {
                 *g = None;
-                Err(format!("harness panic outside guarded call: {}", vh::LAST_PANIC_GLOBAL.lock().map(|g| g.clone()).unwrap_or_default()))
+                Err(format!("harness panic outside guarded call: {}", vh::LAST_PANIC_GLOBAL.lock().map(|g| g.clone()).unwrap_or_default()).into())
             }
         }
     })
@@ -1089,6 +1129,7 @@ struct ComboStats {
     level_sizes: Vec<(usize, usize, usize)>,
     samples: Vec<Value>,
     dedup_expanded: u64,
+    start_refused: bool,
 }
 
 struct Node {
@@ -1103,7 +1144,13 @@ fn explore(c: &Combo, rep_found: &mut Vec<(Mode, Start, Vec<u8>, Found)>) -> Com
     let root = match run_history(c.mode, c.start, &[]) {
         Ok(o) => o,
         Err(e) => {
-            st.build_errors.push(e);
+            match e.happy_path {
+                Some(f) => {
+                    rep_found.push((c.mode, c.start, vec![], f));
+                    st.start_refused = true;
+                }
+                None => st.build_errors.push(e.msg),
+            }
             return st;
         }
     };
@@ -1123,7 +1170,7 @@ fn explore(c: &Combo, rep_found: &mut Vec<(Mode, Start, Vec<u8>, Found)>) -> Com
             }
         }
         let (mode, start) = (c.mode, c.start);
-        let results: Vec<(usize, Vec<u8>, Result<HistOut, String>)> = cands
+        let results: Vec<(usize, Vec<u8>, Result<HistOut, RunErr>)> = cands
             .into_par_iter()
             .map(|(pi, h)| {
                 let r = run_history(mode, start, &h);
@@ -1138,7 +1185,7 @@ fn explore(c: &Combo, rep_found: &mut Vec<(Mode, Start, Vec<u8>, Found)>) -> Com
                 Ok(o) => o,
                 Err(e) => {
                     if st.build_errors.len() < 20 {
-                        st.build_errors.push(format!("{:?}: {e}", hist_names(&h)));
+                        st.build_errors.push(format!("{:?}: {}", hist_names(&h), e.msg));
                     }
                     continue;
                 }
@@ -1177,7 +1224,7 @@ fn explore(c: &Combo, rep_found: &mut Vec<(Mode, Start, Vec<u8>, Found)>) -> Com
             let is_new = !st.states.contains(&ch);
             let distinct_letters = h.iter().collect::<BTreeSet<_>>().len() == h.len();
             let posts: BTreeSet<&str> = o.steps.iter().map(|s| st_name(s.post)).collect();
-            if st.samples.is_empty() && h.len() == c.d1.min(4) && distinct_letters && posts.len() >= 3 && o.steps.iter().any(|s| !s.res.is_ok()) && !h.contains(&L_CLOSE) {
+            if st.samples.is_empty() && h.len() == c.d1.min(4) && distinct_letters && posts.len() >= 2 && o.steps.iter().filter(|s| s.res.is_ok()).count() >= 2 && o.steps.iter().any(|s| !s.res.is_ok()) && !h.contains(&L_CLOSE) {
                 st.samples.push(json!({
                     "mode": mode.name(), "start": start.name(),
                     "history": hist_names(&h),
@@ -1273,7 +1320,15 @@ fn combos(tier: vh::Tier) -> Vec<Combo> {
 }
 
 fn print_history(mode: Mode, start: Start, hist: &[u8]) -> Result<Vec<Found>, String> {
-    let o = run_history(mode, start, hist)?;
+    let o = match run_history(mode, start, hist) {
+        Ok(o) => o,
+        Err(RunErr { happy_path: Some(f), .. }) => {
+            println!("mode={} start={}: start sequence refused", mode.name(), start.name());
+            println!("  VIOLATES: {}\n    {}", f.signature, f.detail);
+            return Ok(vec![f]);
+        }
+        Err(e) => return Err(e.msg),
+    };
     println!("mode={} start={} history={:?}", mode.name(), start.name(), hist_names(hist));
     if let Some(i) = o.na_at {
         println!("  letter {i} not applicable (operand slot empty)");
@@ -1334,6 +1389,7 @@ fn main() {
     let mut tot = ComboStats::default();
     let mut per_combo = vec![];
     let mut states_total = 0u64;
+    let mut combos_refused: Vec<String> = vec![];
     for c in &cs {
         let t0 = std::time::Instant::now();
         let st = explore(c, &mut all_found);
@@ -1350,6 +1406,9 @@ fn main() {
             "wall_s": t0.elapsed().as_secs_f64(),
         }));
         states_total += st.states.len() as u64;
+        if st.start_refused {
+            combos_refused.push(format!("{}/{}", c.mode.name(), c.start.name()));
+        }
         tot.histories += st.histories;
         tot.transitions += st.transitions;
         tot.ok_calls += st.ok_calls;
@@ -1374,7 +1433,7 @@ fn main() {
     if !tot.canon_unsound.is_empty() {
         vh::machinery_failure(&format!("canonical state is missing a field (merged histories diverge): {}", tot.canon_unsound[0]));
     }
-    if tot.outcome_classes.len() < 8 || tot.ok_calls == 0 || tot.err_calls == 0 {
+    if all_found.is_empty() && (tot.outcome_classes.len() < 8 || tot.ok_calls == 0 || tot.err_calls == 0) {
         vh::machinery_failure("vacuous run: too few distinct call outcomes");
     }
 
@@ -1388,7 +1447,10 @@ fn main() {
     let mut ordered: Vec<_> = by_sig.into_iter().collect();
     ordered.sort_by(|a, b| (a.1.1.2.len(), &a.1.1.2).cmp(&(b.1.1.2.len(), &b.1.1.2)));
     for (sig, (count, (mode, start, hist, f))) in ordered {
-        let again = run_history(mode, start, &hist).map(|o| o.found.iter().any(|g| g.signature == sig)).unwrap_or(false);
+        let again = match run_history(mode, start, &hist) {
+            Ok(o) => o.found.iter().any(|g| g.signature == sig),
+            Err(e) => e.happy_path.map(|g| g.signature == sig).unwrap_or(false),
+        };
         if !again {
             unreproduced.push(sig.clone());
         }
@@ -1416,7 +1478,8 @@ fn main() {
     rep.set("nondeterministic_histories", json!(tot.nondeterministic));
     rep.set("violations_not_reproduced_on_second_run", json!(unreproduced));
     rep.set("shadow_peer_errors", json!(tot.shadow_errors));
-    rep.set("exhaustive", true);
+    rep.set("start_states_refused_by_impl_(reported_as_violations)", json!(combos_refused));
+    rep.set("exhaustive", combos_refused.is_empty());
     rep.set("caps_hit", json!([]));
     for s in tot.samples {
         rep.sample(s);
